@@ -19,10 +19,13 @@ OMEN_MODELS = [
 
 def make(rng, path, with_m=True, m_last=False):
     for attempt in range(200):
+        # groups of several equally probable values (a pre-terminal then holds several guesses per first transition: a status
+        # request can land between them) - the pre-terminal probabilities stay distinct
+        pd, pa = round(rng.uniform(0.3, 0.45), 6), round(rng.uniform(0.3, 0.45), 6)
         terms = {
-            'D1': [('1', round(rng.uniform(0.4, 0.6), 6)), ('2', round(rng.uniform(0.1, 0.3), 6))],
+            'D1': [('1', pd), ('3', pd), ('2', round(rng.uniform(0.05, 0.2), 6))],
             'O1': [('!', round(rng.uniform(0.5, 0.7), 6)), ('?', round(rng.uniform(0.05, 0.2), 6))],
-            'A2': [('ab', round(rng.uniform(0.5, 0.9), 6))],
+            'A2': [('ab', pa), ('cd', pa)],
             'C2': [('LL', round(rng.uniform(0.6, 0.8), 6)), ('UL', round(rng.uniform(0.1, 0.3), 6))],
         }
         structs = rng.sample(['D1', 'O1', 'A2', 'A2D1', 'D1O1'], rng.randint(2, 3))
@@ -41,7 +44,7 @@ def make(rng, path, with_m=True, m_last=False):
                                omen_keyspace=[(0, 1), (1, 3), (2, 3)], uuid='11111111-2222-3333-4444-%012d' % rng.randint(0, 10 ** 11))
         pcfg = ptq.load_pcfg(path)
         probs = [it['prob'] for it, _ in ptq.run_history(pcfg, [], with_queue=False)['sessions'][0]['ev']]
-        if len(set(probs)) == len(probs) and len(probs) <= 16:
+        if len(set(probs)) == len(probs) and len(probs) <= 16:   # (the number of pre-terminals; each may hold several guesses)
             return {'terminals': terms, 'base': base, 'omen_prob': omen_prob}
     raise core.MachineryError('could not build a tie-free ruleset')
 
